@@ -21,6 +21,19 @@ import os
 import re as _re
 
 
+_PINNED = None
+
+
+def _pinned_anchors():
+    global _PINNED
+    if _PINNED is None:
+        import json
+        path = os.path.join(os.path.dirname(os.path.dirname(os.path.abspath(__file__))), "spec", "anchors.json")
+        with open(path) as f:
+            _PINNED = frozenset(json.load(f)["anchors"])
+    return _PINNED
+
+
 class AnalysisError(Exception):
     """Checker cannot decide: anchor vanished / unknown idiom in a fail-closed rule."""
 
@@ -229,6 +242,10 @@ class Module(object):
 
     def klass(self, name):
         rec = self.last_binding(name)
+        if rec is not None and rec[0] == "import":
+            site = self.repo.def_site(self, name)
+            if site is not None:
+                rec = self.repo.mod(site[0]).last_binding(site[1])
         if rec is None or rec[0] != "class":
             raise AnchorError("class %s.%s not found" % (self.name, name))
         return rec[1]
@@ -267,6 +284,71 @@ class Repo(object):
                 rel = rel[: -len(".__init__")]
             self._paths[rel] = p
         self.consulted = set()
+        self._aliases = None
+        self._quiet = 0
+
+    # ------------------------------------------------------------------
+    # pinned anchor names
+    # ------------------------------------------------------------------
+    def def_site(self, module, name, _depth=0):
+        """(module name, name) of the definition a module-level name leads to through
+        package-internal imports and `X = Y` aliases; None for externals / unbound."""
+        if _depth > 12:
+            return None
+        rec = module.last_binding(name)
+        if rec is None:
+            return None
+        if rec[0] == "import":
+            src, orig = rec[1], rec[2]
+            if src is not None and src in self._paths:
+                target = self.mod(src)
+                if orig in target.bindings:
+                    return self.def_site(target, orig, _depth + 1)
+            return None
+        if rec[0] == "assign" and isinstance(rec[1], ast.Name) and rec[1].id in module.bindings and rec[1].id != name:
+            return self.def_site(module, rec[1].id, _depth + 1)
+        if rec[0] in ("def", "class", "assign", "unpack"):
+            return (module.name, name)
+        return None
+
+    def _pinned_aliases(self):
+        if self._aliases is None:
+            self._aliases = {}
+            pinned = _pinned_anchors()
+            self._pinned = pinned
+            self._quiet += 1
+            try:
+                for a in sorted(pinned):
+                    mname, _, n = a.rpartition(".")
+                    if mname not in self._paths:
+                        continue
+                    try:
+                        m = self.mod(mname)
+                        rec = m.last_binding(n)
+                        if rec is None or rec[0] != "import":
+                            continue  # only a definition that moved away and is imported back
+                        site = self.def_site(m, n)
+                    except AnalysisError:
+                        continue
+                    if site is not None and "%s.%s" % site != a and "%s.%s" % site not in pinned:
+                        self._aliases.setdefault(site, a)
+            finally:
+                self._quiet -= 1
+        return self._aliases
+
+    def canon(self, module, name):
+        """Qualified name under which the rules know the definition behind module.name:
+        its definition site, or -- when that site did not exist at the reviewed commit --
+        the pinned anchor that still leads to it (a definition moved and imported back)."""
+        if isinstance(module, str):
+            module = self.mod(module)
+        site = self.def_site(module, name)
+        if site is None:
+            return "%s.%s" % (module.name, name)
+        q = "%s.%s" % site
+        if q in _pinned_anchors():
+            return q
+        return self._pinned_aliases().get(site, q)
 
     def mod(self, name):
         if not name.startswith(self.package):
@@ -281,7 +363,8 @@ class Repo(object):
             except SyntaxError as e:
                 raise AnchorError("module %s does not parse: %s" % (name, e))
             self.modules[name] = m
-        self.consulted.add(name)
+        if not self._quiet:
+            self.consulted.add(name)
         return m
 
     def has_mod(self, name):
@@ -317,7 +400,7 @@ class Repo(object):
             return None
         kind = rec[0]
         if kind == "def" or kind == "class":
-            return FuncRef(module, rec[1], "%s.%s" % (module.name, name))
+            return FuncRef(module, rec[1], self.canon(module, name))
         if kind == "import":
             src, orig = rec[1], rec[2]
             if src is not None and (src == self.package or src.startswith(self.package + ".")):
@@ -341,12 +424,12 @@ class Repo(object):
             if isinstance(val, ast.Name):
                 return self.resolve(module, val.id, _depth + 1)
             if isinstance(val, ast.Lambda):
-                return FuncRef(module, val, "%s.%s" % (module.name, name))
+                return FuncRef(module, val, self.canon(module, name))
             if isinstance(val, ast.Attribute):
                 dn = self.dotted(module, val)
                 if dn:
                     return FuncRef(None, None, dn)
-            return FuncRef(module, val, "%s.%s" % (module.name, name))
+            return FuncRef(module, val, self.canon(module, name))
         return None
 
     def dotted(self, module, node):
@@ -365,6 +448,8 @@ class Repo(object):
             base = rec[1]
         elif rec[0] == "import":
             base = "%s.%s" % (rec[1], rec[2])
+            if rec[1] in self._paths:
+                base = self.canon(module, cur.id)
         else:
             return None
         return ".".join([base] + list(reversed(parts)))
@@ -418,7 +503,7 @@ class Repo(object):
                 else:
                     raise Unknown("external %s.%s" % (src, orig))
             elif kind in ("def", "class"):
-                val = FuncRef(module, rec[1], "%s.%s" % (module.name, name))
+                val = FuncRef(module, rec[1], self.canon(module, name))
             else:
                 raise Unknown("not a constant: %s.%s" % key)
         finally:
